@@ -1,0 +1,56 @@
+//go:build verif
+
+package storage
+
+// Verification hooks for property C34 (custodian history): the finalization of one
+// transaction in one Badger write transaction, exactly as writeSnapshot runs it for every
+// transaction of a snapshot (writeTransaction, then finalizeTransaction, which reaches
+// writeCustodianNodes through writeUTXO), the asset record writeTotalInAsset requires, and
+// the raw CUSTODIANUPDATE key space. Compiled only with -tags verif.
+
+import (
+	"github.com/MixinNetwork/mixin/common"
+	"github.com/MixinNetwork/mixin/crypto"
+	"github.com/dgraph-io/badger/v4"
+)
+
+func (s *BadgerStore) VerifC34FinalizeTransaction(ver *common.VersionedTransaction, snap *common.SnapshotWithTopologicalOrder) error {
+	return s.snapshotsDB.Update(func(txn *badger.Txn) error {
+		err := writeTransaction(txn, ver)
+		if err != nil {
+			return err
+		}
+		return finalizeTransaction(txn, ver, snap)
+	})
+}
+
+func (s *BadgerStore) VerifC34WriteAssetInfo(id crypto.Hash, a *common.Asset) error {
+	return s.snapshotsDB.Update(func(txn *badger.Txn) error {
+		return writeAssetInfo(txn, id, a)
+	})
+}
+
+// VerifC34CustodianKeys lists the raw records timestamp ↦ transaction hash in key order.
+func (s *BadgerStore) VerifC34CustodianKeys() ([]uint64, []crypto.Hash) {
+	txn := s.snapshotsDB.NewTransaction(false)
+	defer txn.Discard()
+
+	opts := badger.DefaultIteratorOptions
+	opts.Prefix = []byte(graphPrefixCustodianUpdate)
+	it := txn.NewIterator(opts)
+	defer it.Close()
+
+	var tss []uint64
+	var hashes []crypto.Hash
+	for it.Seek(graphCustodianUpdateKey(0)); it.ValidForPrefix([]byte(graphPrefixCustodianUpdate)); it.Next() {
+		val, err := it.Item().ValueCopy(nil)
+		if err != nil {
+			panic(err)
+		}
+		var h crypto.Hash
+		copy(h[:], val)
+		tss = append(tss, graphCustodianAccountTimestamp(it.Item().KeyCopy(nil)))
+		hashes = append(hashes, h)
+	}
+	return tss, hashes
+}
